@@ -7,8 +7,8 @@ Model of mesa/visualization  (property C20)
   solara_viz.py             _check_model_params, split_model_params, check_param_is_fixed,
                             the call of the check in ModelCreator
 
-The model follows the code after the `fix:` commits V3, V5, V6, V8, V9, V10, V11, P1, P2 (known_findings.d/C20.txt);
-V7 is open, the model follows the defective code there (`scatter` answers `Index`).
+The model follows the code after the `fix:` commits V3, V5, V6, V7, V8, V9, V10, V11, P1, P2
+(known_findings.d/C20.txt).
 
 Values of a portrayal are opaque tokens (`String`): colour names, marker symbols, decimal integers.
 Portrayal dictionaries live in a tiny heap and the portrayal function returns *references*, so that two
@@ -36,7 +36,7 @@ def erase (d : Dict) (k : Key) : Dict := d.filter (fun kv => kv.1 != k)
 /-- `d.pop(k, dflt)`: the value and the dict afterwards -/
 def pop (d : Dict) (k : Key) (dflt : Val) : Val × Dict := ((get? d k).getD dflt, erase d k)
 
-/-- `d.pop(k)` under `contextlib.suppress(KeyError)` -/
+/-- `d.pop(k, None)` -/
 def pop? (d : Dict) (k : Key) : Option Val × Dict := (get? d k, erase d k)
 
 def hasKey (d : Dict) (k : Key) : Bool := d.any (fun kv => kv.1 == k)
@@ -238,24 +238,45 @@ def collectAgentData (df : Defaults) (heap : Heap) (p : Portrayal) : List Agent 
     | none => none
     | some l => (collectAgentData df heap p as).map (collectOne df l (portrayed heap p a.id) :: ·)
 
-/-- the optional per-agent arrays: only the agents that supplied the key contribute -/
-def alphas (es : List Entry) : List Val := es.filterMap (·.alpha)
-def edgecolorss (es : List Entry) : List Val := es.filterMap (·.edgecolors)
-def linewidthss (es : List Entry) : List Val := es.filterMap (·.linewidths)
+/-- an optional per-agent array (`alpha`, `edgecolors`, `linewidths`) as `collect_agent_data` returns it
+    (fix V7): one slot per agent — the value its portrayal returned, `None` (`none`) if it returned none —
+    unless no agent returned the key: then the array stays empty -/
+def optArray (f : Entry → Option Val) (es : List Entry) : List (Option Val) :=
+  if es.all (fun e => (f e).isNone) then [] else es.map f
+
+def alphas (es : List Entry) : List (Option Val) := optArray (·.alpha) es
+def edgecolorss (es : List Entry) : List (Option Val) := optArray (·.edgecolors) es
+def linewidthss (es : List Entry) : List (Option Val) := optArray (·.linewidths) es
 
 /-! ## _scatter -/
 
 inductive Err where
-  | index             -- IndexError
   | attribute         -- AttributeError (agent without pos and cell)
   | notImplemented    -- NotImplementedError
 deriving DecidableEq, Repr
 
-/-- one `ax.scatter` call -/
+/-- `_fill_unspecified` for one optional key of one scatter call (`ms`: the agents the two masks select).
+    `none`: no agent of the call specifies the key — it is deleted and left to `ax.scatter`.
+    Otherwise one value per agent of the call: its own, or — written `none` — what `ax.scatter` uses by
+    default for that agent (alpha: the alpha of its own colour; edgecolors: its own colour, i.e. "face";
+    linewidths: the rcParams line width of the call's marker kind). -/
+def fillKey (f : Entry → Option Val) (ms : List Entry) : Option (List (Option Val)) :=
+  if ms.all (fun e => (f e).isNone) then none else some (ms.map f)
+
+/-- what one scatter call is handed for an optional key: `_scatter` pops the key if the array of the
+    whole space is empty; otherwise the masked array `v[logical]`, completed by `_fill_unspecified` -/
+def passKey (f : Entry → Option Val) (es ms : List Entry) : Option (List (Option Val)) :=
+  if (optArray f es).isEmpty then none else fillKey f ms
+
+/-- one `ax.scatter` call: marker, z-order, the selected agents (x, y, s, c come from them one by one)
+    and the optional keyword arrays (`none`: keyword not passed) -/
 structure Group where
   marker : Val
   zorder : Val
   members : List Entry
+  alpha : Option (List (Option Val))
+  edgecolors : Option (List (Option Val))
+  linewidths : Option (List (Option Val))
 deriving DecidableEq, Repr
 
 /-- the distinct values of an array (`set(marker)`, `np.unique(zorder)`; their order is not observable) -/
@@ -263,22 +284,36 @@ def distinct : List Val → List Val
   | [] => []
   | x :: xs => if (distinct xs).contains x then distinct xs else x :: distinct xs
 
-/-- an optional array is usable if nobody or everybody supplied the key; otherwise `v[logical]`
-    indexes an array of the wrong length (open finding V7) -/
-def optionalOk (n k : Nat) : Bool := k == 0 || k == n
+/-- the scatter call for marker `m` and z-order `z`: `logical = mark_mask & zorder_mask` -/
+def mkGroup (es : List Entry) (m z : Val) : Group :=
+  let ms := es.filter fun e => e.marker == m && e.zorder == z
+  { marker := m, zorder := z, members := ms,
+    alpha := passKey (·.alpha) es ms, edgecolors := passKey (·.edgecolors) es ms,
+    linewidths := passKey (·.linewidths) es ms }
 
 /-- `_scatter(ax, arguments)`: one scatter call per (marker, zorder) pair of the distinct markers and the
-    distinct z-orders that selects at least one agent (fix V11), with the agents selected by the two masks -/
-def scatter (es : List Entry) : Except Err (List Group) :=
-  if es.isEmpty then .ok []                      -- fix V5: nothing to plot
-  else if !(optionalOk es.length (edgecolorss es).length && optionalOk es.length (linewidthss es).length
-            && optionalOk es.length (alphas es).length) then .error .index
+    distinct z-orders that selects at least one agent (fix V11), with the agents selected by the two masks.
+    Since fix V7 every optional array has one slot per agent, so the masks always fit. -/
+def scatter (es : List Entry) : List Group :=
+  if es.isEmpty then []                      -- fix V5: nothing to plot
   else
     let marks := distinct (es.map (·.marker))
     let zs := distinct (es.map (·.zorder))
-    .ok ((marks.flatMap fun m => zs.map fun z =>
-      { marker := m, zorder := z, members := es.filter fun e => e.marker == m && e.zorder == z : Group }).filter
-        fun g => !g.members.isEmpty)
+    ((marks.flatMap fun m => zs.map fun z => mkGroup es m z).filter fun g => !g.members.isEmpty)
+
+/-- matplotlib's side of one optional keyword (trusted, not mesa code): marker number `i` of the call gets
+    slot `i` of the array; a keyword that is not passed leaves every marker at the default -/
+def withKey (set : Entry → Option Val → Entry) (arg : Option (List (Option Val))) (ms : List Entry) : List Entry :=
+  match arg with
+  | none => ms.map (set · none)
+  | some vs => List.zipWith set ms vs
+
+/-- the markers of one scatter call as they end up on the Axes: position, size and colour of the selected
+    agents, alpha / edge colour / line width as the keyword arrays say (`none`: matplotlib's default) -/
+def Group.drawn (g : Group) : List Entry :=
+  withKey (fun e v => { e with linewidths := v }) g.linewidths
+    (withKey (fun e v => { e with edgecolors := v }) g.edgecolors
+      (withKey (fun e v => { e with alpha := v }) g.alpha g.members))
 
 /-! ## draw_space -/
 
@@ -296,7 +331,7 @@ def hexCenter (col row : Nat) : Loc :=
 def drawSpace (sp : Space) (heap : Heap) (p : Portrayal) : Except Err (List Group) :=
   match collectAgentData drawDefaults heap p (spaceAgents sp) with
   | none => .error .attribute
-  | some es => scatter (es.map fun e => { e with loc := transform sp.fam e.loc })
+  | some es => .ok (scatter (es.map fun e => { e with loc := transform sp.fam e.loc }))
 
 /-! ## Altair -/
 
